@@ -151,7 +151,8 @@ func genBatchCase(rng *rand.Rand) BatchCase {
 	if c.Kind.Kinesis != "" && shape == 0 && rng.Intn(5) == 0 {
 		n = 495 + rng.Intn(12) // around the 500-record limit
 	}
-	keys := []string{"7001-1", "7002-2", "7003-3"}
+	// (two deliveries of transaction 7001: a redelivered transaction can share a batch with its first delivery)
+	keys := []string{"7001-1", "7002-2", "7003-3", "7001-9"}
 	id := uint64(rng.Intn(1000))
 	for i := 0; i < n; i++ {
 		k := rng.Intn(len(keys))
